@@ -1,7 +1,6 @@
 // C01/C02 type configurations, group 9 (see c01_btree.hpp; C01_TYPE(kind, greater, leaf, inner, search 0=linear 1=binary 2=default traits, element))
 #include "c01_btree.hpp"
 C01_TYPE(MMAP, true, 5, 5, 1, int)
-C01_TYPE(SET, false, 6, 4, 0, int)
 C01_TYPE(SET, true, 6, 4, 1, int)
 C01_TYPE(MSET, false, 6, 4, 0, int)
 C01_TYPE(MSET, true, 6, 4, 1, int)
